@@ -71,6 +71,9 @@ type TagValueIterator struct {
 }
 
 func (attr *AllTagTreeReaders) tagTreeFileExists(tagKey string) bool {
+	if !wmetrics.IsValidTagKey(tagKey) {
+		return false
+	}
 	fName := attr.baseDir + tagKey
 	_, err := os.Stat(fName)
 	return err == nil
@@ -115,6 +118,10 @@ func InitAllTagsTreeReader(tagsTreeBaseDir string) (*AllTagTreeReaders, error) {
 }
 
 func (attr *AllTagTreeReaders) initTagsTreeReader(tagKey string) (*TagTreeReader, error) {
+	if !wmetrics.IsValidTagKey(tagKey) {
+		// no tags tree file is ever written for such a key
+		return nil, utils.NewErrorWithCode(os.ErrNotExist.Error(), fmt.Errorf("initTagsTreeReader: invalid tag key %q", tagKey))
+	}
 	fName := attr.baseDir + tagKey
 
 	fd, err := os.OpenFile(fName, os.O_RDONLY, 0644)
